@@ -78,15 +78,15 @@ def one_case(spec):
                     continue
                 out["ran"] += 1
                 exp = expected[ci]
-                bad = None
+                bad = kind = None
                 if got.verdict == "asmerror":
-                    bad = f"TEAL does not assemble: {got.detail}"
+                    bad, kind = f"TEAL does not assemble: {got.detail}", "asm"
                 elif got.observable() != exp.observable():
-                    bad = f"outcome differs: expected {exp.observable()!r:.300} got {got.observable()!r:.300} ({got.detail})"
+                    bad, kind = f"outcome differs: expected {exp.observable()!r:.300} got {got.observable()!r:.300} ({got.detail})", "outcome"
                 elif got.verdict in ("approve", "reject") and len(got.final_stack) != 0:
-                    bad = f"stack not empty at exit: {got.final_stack!r:.100}"
+                    bad, kind = f"stack not empty at exit: {got.final_stack!r:.100}", "stack"
                 if bad:
-                    out["mismatches"].append({"options": tag, "ctx": ci, "what": bad})
+                    out["mismatches"].append({"options": tag, "ctx": ci, "what": bad, "kind": kind})
     if not out["mismatches"]:
         out["teals"] = {}
     else:
